@@ -65,7 +65,8 @@ func (e *Engine) Run(fn *ssa.Function) (final *St, err error) {
 				err = fmt.Errorf("UNSUPPORTED panic of the program under analysis (%s at %s) escaped every frame with deferred calls", u.msg, u.pos)
 				return
 			}
-			panic(r)
+			// any other failure inside the engine makes this job inconclusive, not the whole check
+			err = fmt.Errorf("UNSUPPORTED engine failure: %v at %s", r, e.where())
 		}
 	}()
 	st := &St{pc: e.S.True, heap: newHeap(), env: map[ssa.Value]Value{}}
